@@ -34,10 +34,60 @@ HARMLESS = [
 ]
 
 
+V_BREAKING = [
+    ("size bound > -> >=", "len(event.content) > config.max_event_size", "len(event.content) >= config.max_event_size", {"tie_is_not_too_large"}),
+    ("future tolerance 3600 -> 3000", "< -3600", "< -3000", {"tie_is_recent"}),
+    ("age test dropped to else-only", "    elif (time() - event.created_at) < -3600:", "    elif (event.created_at - time()) < -3600:", {"tie_is_recent"}),
+    ("kinds membership inverted", "if event.kind not in config.valid_kinds:", "if event.kind in config.valid_kinds:", {"tie_is_certain_kind"}),
+    ("PoW bound < -> <=", "if found_bits < config.require_pow:", "if found_bits <= config.require_pow:", {"tie_is_pow"}),
+    ("PoW counts from 255", "found_bits = 256 - int.from_bytes", "found_bits = 255 - int.from_bytes", {"tie_is_pow"}),
+    ("hellthread applies to kind 1 only", "event.kind in (1, 7)", "event.kind in (1,)", {"tie_is_not_hellthread"}),
+    ("hellthread bound > -> >=", "if num_tags > config.hellthread_limit:", "if num_tags >= config.hellthread_limit:", {"tie_is_not_hellthread"}),
+    ("service event check on another kind", "event.kind == 31494 and", "event.kind == 31495 and", {"tie_is_service_event"}),
+    ("blacklist test inverted", "if event.pubkey in config.pubkey_blacklist:", "if event.pubkey not in config.pubkey_blacklist:", {"tie_is_author_blacklisted"}),
+]
+V_HARMLESS = [
+    ("size test negated form", "if len(event.content) > config.max_event_size:", "if not (len(event.content) <= config.max_event_size):"),
+    ("age in a local variable", "    if (time() - event.created_at) > config.oldest_event:", "    age = time() - event.created_at\n    if age > config.oldest_event:"),
+    ("elif split into a second if", "    elif (time() - event.created_at) < -3600:", "    if (time() - event.created_at) < -3600:"),
+    ("kinds test written with ==", "event.kind in (1, 7)", "(event.kind == 1 or event.kind == 7)"),
+    ("PoW inlined", "if found_bits < config.require_pow:", 'if 256 - int.from_bytes(event.id_bytes, "big").bit_length() < config.require_pow:'),
+]
+
+
+def validators_part(lean):
+    from lib import translate_validators
+    src = open("/repo/nostr_relay/validators.py").read()
+    bad = 0
+    for kind, muts in (("breaking", V_BREAKING), ("harmless", V_HARMLESS)):
+        for m in muts:
+            name, old, new = m[0], m[1], m[2]
+            if src.count(old) != 1:
+                print("SKIP   %-45s (pattern occurs %d times in the current source)" % (name, src.count(old)))
+                continue
+            d = tempfile.mkdtemp(prefix="tiemut-")
+            try:
+                os.makedirs(os.path.join(d, "nostr_relay"))
+                open(os.path.join(d, "nostr_relay", "validators.py"), "w").write(src.replace(old, new))
+                r = translate_validators.run(d, lean)
+            finally:
+                shutil.rmtree(d, ignore_errors=True)
+            failed = set(r["failed_names"])
+            if kind == "breaking":
+                ok = bool(failed & m[3])
+                print("%s %-45s broke %s (expected %s)%s" % ("ok    " if ok else "MISSED", name, sorted(failed), sorted(m[3]),
+                                                              "" if not r["unavailable"] else " unavailable=%r" % r["unavailable"]))
+            else:
+                ok = r["status"] == "checked"
+                print("%s %-45s status %s %s" % ("ok    " if ok else "ALARM ", name, r["status"], sorted(failed) or r["unavailable"] or ""))
+            bad += not ok
+    return bad
+
+
 def main():
     lean = os.environ.get("VERIF_LEAN") or os.path.join(HERE, "lean")
     src = open("/repo/nostr_relay/storage/kv.py").read()
-    bad = 0
+    bad = validators_part(lean)
     for kind, muts in (("breaking", BREAKING), ("harmless", HARMLESS)):
         for m in muts:
             name, old, new = m[0], m[1], m[2]
